@@ -31,12 +31,15 @@ CLAIMS = {
            "code, each with a proved counterexample theorem (sync_burst_over_bound_loses_events, "
            "async_breaker_drops_any_event, mutual_exclusion_fails / flag_protocol_can_strand_an_event) and a known "
            "finding (F10, F30, F42)",
-    "C12": "theorems: restore_snap / restore_snap_equiv / snap_restore_snap / repeated_cycles (round trip), "
-           "restore_rejects_nonobject / _unknown_state / _shape_* (corrupt snapshots give library errors), "
-           "restore_ok_inv + runInv_legal (legal configuration after restore), step_respects_equiv and "
-           "resume_bisimilar_of_inv / resume_bisimilar_partial (a restored machine continues like the original "
-           "on every later event) (26); cut-point and corrupt-snapshot checks on the code; finding F40 fixed in "
-           "the library, F43 (from_snapshot shape validation) open",
+    "C12": "theorems: restore_snap / restored_hist / restore_snap_equiv / snap_restore_snap / repeated_cycles (round "
+           "trip), restore_rejects_nonobject / _unknown_state / _shape_* (corrupt snapshots give library errors), "
+           "recorded_lists_sorted (unconditional: remembered lists of every reached state are in (depth, id) order), "
+           "reached_runP (legal configuration and legal remembered selections at every cut of every run), "
+           "resume_bisimilar / resume_bisimilar_run / resume_bisimilar_of_targets (a machine restored at ANY quiescent "
+           "cut of ANY run continues like the original on every later event list; hypotheses left: quiescence and "
+           "SnapOK, both evaluated by driver_snap at every explored cut) (30); cut-point and corrupt-snapshot checks "
+           "on the code; finding F40 fixed in the library (prefix_resume_history_order_counterexample is the pre-fix "
+           "witness), F43 (from_snapshot shape validation) open",
     "C14": "theorems over the lifecycle model (start/stop/send/send_events/restore call sequences, both engines): "
            "status_edges(_run) (only the documented status edges), stop_idempotent, stop_from_any_status, "
            "start_after_stop_raises, start_idempotent_running, start_noop_when_finished, start_resumes_restored, "
@@ -54,6 +57,10 @@ CLAIMS = {
 }
 
 
+# entries generated from CLAIMS that are rewritten on every run (the others are kept as they are)
+REGENERATE = {"C04", "C12", "C14"}
+
+
 def main():
     from xsmverif import props
     path = os.path.join(ROOT, "MANIFEST.json")
@@ -63,13 +70,14 @@ def main():
     old_na = {e["property_id"]: e["reason"] for e in man.get("not_applicable", [])}
     checks = []
     for pid in all_ids:
-        if pid in have:
+        ov = os.path.join(ROOT, "harness", "manifest_claims", pid + ".json")
+        override = {}
+        if os.path.exists(ov) and pid in props.PROPS:
+            # a complete entry written next to the check it describes
+            checks.append(json.load(open(ov)))
+        elif pid in have and pid not in REGENERATE:
             checks.append(have[pid])
         elif pid in props.PROPS:
-            override = {}
-            ov = os.path.join(ROOT, "harness", "manifest_claims", pid + ".json")
-            if os.path.exists(ov):
-                override = json.load(open(ov))
             checks.append({
                 "property_id": pid,
                 "quick_cmd": "./check %s quick" % pid,
